@@ -81,6 +81,8 @@ func runC20(c *Ctx) {
 		{[]string{"/api"}, []extra{{"/extra/", "e0"}, {"/metrics", "e1"}}, "first"},
 		{[]string{"/api"}, []extra{{"/extra/", "e0"}, {"/metrics", "e1"}}, "middle"},
 		{[]string{"/api/", "/g"}, []extra{{"/extra/", "e0"}}, "last"},
+		{[]string{"/twirp"}, nil, ""}, // a prefix that looks like a protocol's conventional route is a prefix like any other
+		{[]string{"/grpc/", "/twirp/"}, []extra{{"/static/", "e0"}}, ""},
 	}
 	enc, _ := proto.Marshal(reqWithData(fx, []byte("payload")))
 	type req struct {
@@ -268,6 +270,8 @@ func runC20(c *Ctx) {
 			c.Correspond("mount", join("mount", pats, exs, p), classify(got, c20Resp{}), true)
 			if !strings.HasPrefix(got.body, "extra:"+e.name+" ") {
 				c.SpecFail("extra", in, got.String(), "extra:"+e.name, "C20/extra-handler-lost", "a handler added with HTTPHandlerOption does not receive its own pattern")
+			} else if got.body != "extra:"+e.name+" path="+p { // ... and receives the request as it arrived
+				c.SpecFail("extra", in, got.String(), "extra:"+e.name+" path="+p, "C20/extra-handler-path-rewritten", "a handler added with HTTPHandlerOption sees a rewritten request path")
 			}
 		}
 	}
